@@ -500,6 +500,9 @@ func (h *H[T]) C11(rc *runCtx) *Violation {
 		})
 	}
 	sim.Run(estSteps)
+	if sim.LibPanicked {
+		return nil // cut short without a verdict; nothing the abandoned tasks left behind may be read
+	}
 
 	// Post-run inspection (every task happens-before this point).
 	for ti := range states {
